@@ -27,19 +27,25 @@ Lemma is_reference_sym : forall a b, is_reference a b = is_reference b a.
 Proof.
   intros a b. unfold is_reference.
   rewrite (N.eqb_sym (ent_id b) (ent_id a)).
-  rewrite (orb_comm (is_instance_of b a)), (orb_comm (is_declared_by b a)).
+  rewrite (orb_comm (is_instance_of b (declaration a))), (orb_comm (is_declared_by b a)).
   reflexivity.
+Qed.
+
+Lemma is_declared_by_declaration : forall e,
+  (ent_id (declaration e) =? ent_id e) = false -> is_declared_by e (declaration e) = true.
+Proof.
+  intros [i r] E. unfold declaration, is_declared_by in *. cbn [ent_related ent_id] in *.
+  destruct r as [|x|x|x|x]; cbn [ent_id] in E; try (rewrite N.eqb_refl in E; discriminate E).
+  apply N.eqb_refl.
 Qed.
 
 Lemma is_reference_declaration : forall e, is_reference (declaration e) e = true.
 Proof.
-  intros [i r]. unfold declaration, is_reference, is_instance_of, is_declared_by.
-  cbn [ent_related ent_id].
-  destruct r as [|x|x|x|x]; cbn [ent_related ent_id]; rewrite ?N.eqb_refl; try reflexivity.
-  destruct (ent_id x =? i); [reflexivity|].
-  rewrite orb_false_r.
-  destruct (match ent_related x with InstanceOf x0 => ent_id x0 =? i | _ => false end); [reflexivity|].
-  rewrite orb_true_r. reflexivity.
+  intros e. unfold is_reference.
+  destruct (ent_id (declaration e) =? ent_id e) eqn:E1; [reflexivity|].
+  destruct (is_instance_of (declaration e) (declaration e) || is_instance_of e (declaration (declaration e)));
+    [reflexivity|].
+  rewrite (is_declared_by_declaration e E1), orb_true_r. reflexivity.
 Qed.
 
 (* ---------------- induction principle for the nested type ---------------- *)
@@ -465,9 +471,10 @@ Lemma is_reference_ent_same : forall e a b,
 Proof.
   intros [ie re] [ia ra] [ib rb] H. unfold ent_same in H. cbn [ent_id ent_related] in H.
   apply andb_true_iff in H. destruct H as [H R]. apply N.eqb_eq in H. subst ib.
-  unfold is_reference, is_instance_of, is_declared_by. cbn [ent_id ent_related].
+  unfold is_reference, is_instance_of, is_declared_by, declaration. cbn [ent_id ent_related].
   destruct ra as [|x|x|x|x], rb as [|y|y|y|y]; cbn [related_same] in R; try discriminate R;
-    try reflexivity; apply N.eqb_eq in R; rewrite R; reflexivity.
+    try reflexivity; apply N.eqb_eq in R; cbn [ent_id ent_related]; rewrite ?R; try reflexivity;
+    destruct re as [|z|z|z|z]; cbn [ent_id ent_related]; rewrite ?R; reflexivity.
 Qed.
 
 (* ---------------- positions ---------------- *)
@@ -777,7 +784,7 @@ Proof.
   destruct (fst (search_root (find_ent_searcher (fun x => is_declared_by x d)) f None)) as [x|].
   - cbn in H. unfold is_reference. rewrite H. rewrite orb_true_r.
     destruct (ent_id d =? ent_id x); [reflexivity|].
-    destruct (is_instance_of d x || is_instance_of x d); reflexivity.
+    destruct (is_instance_of d (declaration x) || is_instance_of x (declaration d)); reflexivity.
   - unfold is_reference. rewrite N.eqb_refl. reflexivity.
 Qed.
 
@@ -832,4 +839,23 @@ Lemma example_queries :
 Proof.
   split; [vm_compute; reflexivity|]. split; [vm_compute; reflexivity|].
   split; [vm_compute; reflexivity|]. split; vm_compute; reflexivity.
+Qed.
+
+(* generic package shape (28f6f63): declaration, body and instance have one reference set *)
+Lemma instance_body_same_set :
+  wf_forest ex_generic = true
+  /\ find_all_references ex_generic ex_gd = [ex_g_pd; ex_g_pb; ex_g_pe; ex_g_in; ex_g_use]
+  /\ find_all_references ex_generic ex_gb = [ex_g_pd; ex_g_pb; ex_g_pe; ex_g_in; ex_g_use]
+  /\ find_all_references ex_generic ex_gi = [ex_g_pd; ex_g_pb; ex_g_pe; ex_g_in; ex_g_use]
+  /\ is_reference ex_gb ex_gi = true.
+Proof. vm_compute. repeat split; reflexivity. Qed.
+
+Lemma is_reference_old_refuted :
+  item_at_cursor ex_generic 1 (mkPos 4 31) = Some (ex_g_use, ex_gi)
+  /\ In ex_g_use (find_all_references_with is_reference_old ex_generic ex_gd)
+  /\ ~ In ex_g_use (find_all_references_with is_reference_old ex_generic ex_gb)
+  /\ ~ In ex_g_pb (find_all_references_with is_reference_old ex_generic ex_gi).
+Proof.
+  vm_compute. split; [reflexivity|]. split; [tauto|].
+  split; intro H; repeat (destruct H as [H|H]; [discriminate H|]); exact H.
 Qed.
